@@ -495,6 +495,21 @@ fn read_operations_since_from_file(
                 total_size,
                 no_more_smaller
             );
+            if opp_time == since {
+                // Records sharing this timestamp may precede this one (e.g. one
+                // replicate-snapshot of several databases): start at the first of them
+                let mut first = seek_point;
+                while first >= size_as_u64 {
+                    f.seek(SeekFrom::Start(first - size_as_u64)).unwrap();
+                    f.read(&mut time_buffer).unwrap();
+                    if u64::from_le_bytes(time_buffer) != since {
+                        break;
+                    }
+                    first = first - size_as_u64;
+                }
+                f.seek(SeekFrom::Start(first)).unwrap();
+                f.read(&mut time_buffer).unwrap();
+            }
             while let Ok(byte_read) = f.read(&mut key_buffer) {
                 if byte_read == 0 {
                     break;
